@@ -265,7 +265,7 @@ fn gen_attrs(ch: &mut Ch, thorough: bool) -> Option<Case> {
 
 /// Debug / Default attribute flavours
 fn gen_misc(ch: &mut Ch, _thorough: bool) -> Option<Case> {
-    let cases: [(&[&str], &str); 18] = [
+    let cases: [(&[&str], &str); 23] = [
         (&["Debug"], "pub struct X<T>(#[debug(ignore)] pub T, pub Option<T>);"),
         (&["Debug"], "pub struct X<T> { #[debug(transparent)] pub a: Vec<T>, pub b: u8 }"),
         (&["Debug"], "pub enum X<'a, T> { A(#[debug(ignore)] &'a T), B { #[debug(transparent)] x: T }, C }"),
@@ -280,6 +280,11 @@ fn gen_misc(ch: &mut Ch, _thorough: bool) -> Option<Case> {
         (&["Default"], "pub enum X<T> { A, #[default] B(#[default(T::mk(), bound(T: Tr))] T, Option<T>) }"),
         (&["Default"], "pub struct X<T>(#[default(T::mk(), bound(T: Tr, ..))] pub T, #[default(_, bound(Vec<T>: ::core::default::Default))] pub Vec<T>);"),
         (&["Debug"], "pub struct X<T>(#[debug(bound(T: ::core::fmt::Debug))] pub Option<T>, #[debug(ignore, bound())] pub T);"),
+        (&["Ord", "PartialOrd", "Eq", "PartialEq", "Hash"], "pub struct X<T: ?Sized>(pub u8, #[ord(by = |_, _| ::core::cmp::Ordering::Equal)] #[hash(by = |_, _| ())] pub T);"),
+        (&["PartialOrd", "PartialEq"], "pub struct X(pub u8, #[ord(by = |_, _| ::core::cmp::Ordering::Equal)] pub [u8]);"),
+        (&["PartialOrd", "PartialEq"], "pub struct X { pub a: u8, #[partial_ord(by = |_, _| None)] #[partial_eq(by = |_, _| true)] pub b: str }"),
+        (&["Debug"], "pub enum X<T, U> { #[debug(bound(T: ::core::fmt::Debug))] A(T), B(U), C { u: Option<U> } }"),
+        (&["Clone", "PartialEq", "Hash"], "pub enum X<T, U> { #[derive_ex(Clone(bound(T: ::core::clone::Clone)))] A(T), #[derive_ex(PartialEq, bound(U: ::core::cmp::PartialEq))] B(U), C(T, U) }"),
         (&["Clone", "Default"], "pub struct X<T>(pub Box<T>) ;"),
         (&["Clone", "Debug"], "pub enum X<T> { A(T), #[derive_ex(Clone(bound(T: ::core::clone::Clone)), bound(..))] B { #[derive_ex(Debug, bound(T: ::core::fmt::Debug))] x: Option<T> } }"),
         (&["Copy", "Clone", "PartialEq", "Hash"], "pub struct X<T: ?Sized>(pub *const T);"),
